@@ -1,6 +1,7 @@
 package main
 
 import (
+	"sort"
 	"fmt"
 	"go/types"
 	"strings"
@@ -179,6 +180,9 @@ func (ex *Exec) lock(st *State, fr *Frame, instr ssa.Instruction, p Val) {
 		ex.notes["DOUBLE-LOCK "+fr.key+" "+key] = true
 	}
 	st.note("Lock " + key)
+	for _, h := range st.held {
+		ex.lockEdge(h.Key, key, fr.key)
+	}
 	st.bump("lock") // ghost counter: mutex acquisitions (a function that must not wait for a lock keeps it unchanged)
 	ls := ex.specs.Locks[key]
 	ex.havocClosed(st)
@@ -565,4 +569,82 @@ func (ex *Exec) lockKeyFor(fieldKey, lockPath string) string {
 		}
 	}
 	return fieldKey[:strings.LastIndex(fieldKey, ".")] + "." + lockPath
+}
+
+// lockEdge: "to" is acquired while "from" is held (in function where). Collected over the run; a cycle
+// in this relation is a possible lock-order deadlock (reported by lockOrderCycles).
+func (ex *Exec) lockEdge(from, to, where string) {
+	if from == to {
+		return
+	}
+	if ex.lockEdges == nil {
+		ex.lockEdges = map[string]map[string]string{}
+	}
+	if ex.lockEdges[from] == nil {
+		ex.lockEdges[from] = map[string]string{}
+	}
+	if _, ok := ex.lockEdges[from][to]; !ok {
+		ex.lockEdges[from][to] = where
+	}
+}
+
+// locksTakenBy: declared-or-not mutexes a function may acquire (transitively through in-scope callees)
+func (ex *Exec) locksTakenBy(fn *ssa.Function, seen map[*ssa.Function]bool, out map[string]bool) {
+	if fn == nil || seen[fn] || fn.Blocks == nil {
+		return
+	}
+	seen[fn] = true
+	for _, b := range fn.Blocks {
+		for _, in := range b.Instrs {
+			c, ok := in.(ssa.CallInstruction)
+			if !ok {
+				continue
+			}
+			if f := c.Common().StaticCallee(); f != nil {
+				if f.String() == "(*sync.Mutex).Lock" {
+					if r, p, ok := staticRoot(c.Common().Args[0]); ok {
+						out[r+"."+strings.TrimSuffix(p, ".")] = true
+					}
+				} else if inScope(f) {
+					ex.locksTakenBy(f, seen, out)
+				}
+			}
+		}
+	}
+}
+
+func (ex *Exec) lockOrderCycles() []string {
+	var cycles []string
+	color := map[string]int{}
+	var stack []string
+	var dfs func(n string)
+	dfs = func(n string) {
+		color[n] = 1
+		stack = append(stack, n)
+		for m := range ex.lockEdges[n] {
+			if color[m] == 1 {
+				i := len(stack) - 1
+				for i >= 0 && stack[i] != m {
+					i--
+				}
+				cyc := append(append([]string{}, stack[i:]...), m)
+				cycles = append(cycles, strings.Join(cyc, " -> "))
+			} else if color[m] == 0 {
+				dfs(m)
+			}
+		}
+		stack = stack[:len(stack)-1]
+		color[n] = 2
+	}
+	var keys []string
+	for k := range ex.lockEdges {
+		keys = append(keys, k)
+	}
+	sort.Strings(keys)
+	for _, k := range keys {
+		if color[k] == 0 {
+			dfs(k)
+		}
+	}
+	return cycles
 }
